@@ -142,7 +142,7 @@ func TestVerifConsts(t *testing.T) {
 		for _, a := range acc {
 			as = append(as, verifCoqBytes(a))
 		}
-		xs = append(xs, fmt.Sprintf("(%d%%Z, (%s, %d%%Z, [%s]))", e, verifCoqBytes(ce), alg, strings.Join(as, "; ")))
+		xs = append(xs, fmt.Sprintf("((%d)%%Z, (%s, (%d)%%Z, [%s]))", e, verifCoqBytes(ce), alg, strings.Join(as, "; ")))
 	}
 	body := "(* the live reference client: per requested enum value, the Content-Encoding it announces, the algorithm the\n" +
 		"   request body is really compressed with (1 = not compressed), the names offered in Accept-Encoding *)\n" +
